@@ -58,7 +58,9 @@ CHECKS = {
         "assumptions": ["page size + chain length <= 2^64 (a page size near 2^64 makes h+limit wrap and the slice expression panic: a setting, not an input)"],
     },
     "C09": {
-        "suites": [{"suite": "decay", "n_quick": 400, "n_thorough": 6000, "shards": 4, "shards_thorough": 16, "eval": "python3 decay_eval.py {cases} {work} 4"}],
+        "suites": [{"suite": "decay", "n_quick": 400, "n_thorough": 6000, "shards": 4, "shards_thorough": 16, "eval": "python3 decay_eval.py {cases} {work} 4"},
+                   # what a wallet sees: balances of income-only holdings through the access node
+                   {"suite": "views", "n_quick": 120, "n_thorough": 3000, "shards": 4, "shards_thorough": 16, "seed_off": 9}],
         "monitor_props": ["C09"],
         "rule": "decay suite: Utxo.Value at lattice points (y in 0, 1, base, limit-1, limit, limit+1, 2*limit, powers of two up to 2^53, random) x (1 ns, h/2, h, h+1, 20h, random) x six settings; each point is enclosed by Coq's interval tactic (120 bits) on the real model G/F and Go's uint64 must lie within the property's slack of the enclosure; distinct by (yielding, y kind, x kind, setting)",
         "trusted_base": ["Coq Reals axioms (ClassicalDedekindReals.sig_not_dec, sig_forall_dec, FunctionalExtensionality.functional_extensionality_dep, Classical_Prop.classic); the interval tactic additionally relies on the primitive integer/float axioms of the standard library (Uint63, PrimFloat, FloatAxioms) for the numeric Example and for the per-point enclosures",
@@ -124,7 +126,9 @@ CHECKS = {
         "assumptions": ["operation granularity: concurrency inside an operation is C16's business", "no neighbor target is literally \"host\""],
     },
     "C12": {
-        "suites": chain_suites(12, extra=[{"suite": "forks", "n_quick": 160, "n_thorough": 4000, "shards": 8, "shards_thorough": 16}]),
+        "suites": chain_suites(12, extra=[{"suite": "forks", "n_quick": 160, "n_thorough": 4000, "shards": 8, "shards_thorough": 16},
+                                          # one operation placed inside another: the served chain stays hash-linked at every moment
+                                          {"suite": "place", "n_quick": 42, "n_thorough": 840, "shards": 4, "shards_thorough": 16, "eval": "true", "seed_off": 12}]),
         "monitor_props": ["C12"],
         "mismatch_kinds": ["validate", "update", "regsync"],
         "rule": CHAIN_RULE + " For C12 every block hash observed at a height is re-observed after every later operation (production, registry refresh, candidate verification that is later rejected, queries) as long as the chain below it was not replaced by a sync round; registry refreshes mark any subset of addresses invalid so that blocks carry 0, 1, 2 or more pending removals.",
@@ -192,7 +196,9 @@ CHECKS = {
     "C14": {
         "suites": [{"suite": "crash", "n_quick": 48, "n_thorough": 1600, "shards": 8, "shards_thorough": 16},
                    {"suite": "chain", "mode": "mixed", "args": "-mode mixed", "n_quick": 64, "n_thorough": 1600, "shards": 8, "shards_thorough": 16, "seed_off": 14},
-                   {"suite": "faults", "n_quick": 16, "n_thorough": 400, "shards": 4, "shards_thorough": 16, "seed_off": 14}],
+                   {"suite": "faults", "n_quick": 16, "n_thorough": 400, "shards": 4, "shards_thorough": 16, "seed_off": 14},
+                   # peer-supplied targets (announced, or named as broadcaster of a transaction) reach the refresh loop of the neighborhood
+                   {"suite": "net", "n_quick": 200, "n_thorough": 8000, "shards": 4, "shards_thorough": 16, "seed_off": 14}],
         "monitor_props": ["C14"],
         "rule": "crash suite: a valid transaction request, a valid chain (as a neighbor's sync answer) and a validator's utxo answer are mutated at every schema position with 14 fault kinds (null, absent, empty list/object, wrong types, negative, 2^64, 2^64-1, -2^63, float, list of null, nested null), ids recomputed in 4 cases of 5 so the message passes integrity checks, and fed to the real validator handlers, to a sync round, and to the access-node controllers (as validator answers and as request bodies); after each message the operations that later touch stored data run (production, admission, queries); fixed probes null, {}, [], \"\", 0 on every endpoint. The chain and faults suites add multi-step histories (re-spends of partially spent transactions, candidates broken at any position): a panic anywhere ends the harness process and is reported with the input being tried. distinct by (target, position, fault kind)",
         "trusted_base": ["Go's JSON lexer, golang-p2p framing and gin are not modelled; a panic inside gin-served handlers would be recovered in production (the harness calls the controllers directly and reports it)"],
